@@ -31,7 +31,7 @@ SCRIPTS = {
 
 DEFAULT = {'cycle': 'F', 'semicoarsening': False, 'linerelaxation': False,
            'clevel': -1, 'nu_init': 0, 'nu_pre': 2, 'nu_coarse': 1,
-           'nu_post': 2, 'maxit': 50, 'script': 'const'}
+           'nu_post': 2, 'maxit': 50, 'script': 'const', 'plain': False}
 
 DEVIATIONS = {
     'cycle': ['V', 'W'],
@@ -153,6 +153,8 @@ def observe(shape, cfg, leaves=True, horizon=None):
     kw = {k: cfg[k] for k in ('cycle', 'semicoarsening', 'linerelaxation',
                               'clevel', 'nu_init', 'nu_pre', 'nu_coarse',
                               'nu_post', 'maxit')}
+    if cfg.get('plain'):
+        kw['plain'] = True
     with stubs(SCRIPTS[cfg['script']], rec, leaves):
         _, info = emg3d.solve(model, sfield, sslsolver=False, verb=5, log=-1,
                               return_info=True, **kw)
@@ -212,6 +214,14 @@ def moves_from_levels(lv):
 
 def compare(shape, cfg, leaves=True):
     viol = []
+    cfg_obs = cfg             # what the real solver is called with
+    if cfg.get('plain'):
+        # documented: plain=True switches semicoarsening / linerelaxation off
+        # if (and only if) they are True; explicit patterns stay
+        cfg = dict(cfg)
+        for k_ in ('semicoarsening', 'linerelaxation'):
+            if cfg[k_] is True:
+                cfg[k_] = False
 
     def V(cls, what, **kw):
         viol.append(dict(cls=cls, what=what, **kw))
@@ -222,7 +232,7 @@ def compare(shape, cfg, leaves=True):
                       cfg['maxit'], 1e-6, SCRIPTS[cfg['script']])
     horizon = 10*(len(ref['kernels']) + len(ref['transfers'])) + 200
     try:
-        rec, info = observe(shape, cfg, leaves, horizon)
+        rec, info = observe(shape, cfg_obs, leaves, horizon)
     except (Horizon, RecursionError) as e:
         V('recursion-does-not-terminate', f'{type(e).__name__}: {e}')
         return viol, ref, []
@@ -514,6 +524,22 @@ def run(ctx):
                          'calls vs the reference with digits advancing once '
                          'per fine-grid cycle across calls',
                     time_cap=cap or (400 if q else 1800), chunksize=64)
+    if ctx.wants('plain'):
+        shp = [(8, 8, 8), (16, 8, 32), (6, 4, 8), (8, 2, 2), (5, 8, 8)]
+        cs = [{'shape': sh, 'cfg': {'plain': True, 'cycle': cy,
+                                    'semicoarsening': sc,
+                                    'linerelaxation': lr, **ex}}
+              for cy in ('F', 'V', 'W')
+              for sc in (True, False, 1, 2, 3, 12)
+              for lr in (True, False, 1, 4, 7, 147)
+              for ex in ({}, {'clevel': 1})
+              for sh in shp]
+        ctx.explore('plain-shortcut', FN, cs, engine='E1+E4',
+                    rule='plain=True x cycle x 6 semicoarsening x 6 line-'
+                         'relaxation settings (True = left at its default, '
+                         'patterns explicit) x shapes: True is switched off, '
+                         'explicit patterns stay',
+                    time_cap=cap or (360 if q else 1200), chunksize=16)
     if ctx.wants('pairs'):
         shp = [(2, 2, 2), (3, 3, 3), (4, 4, 4), (5, 5, 5), (6, 6, 6),
                (8, 8, 8), (12, 12, 12), (16, 16, 16), (8, 2, 2), (2, 16, 4),
